@@ -226,7 +226,45 @@ class C18:
                     cfg.update({"matching_cost": {"window_size": 4}, "filter": {"filter_size": 2},
                                 "cost_volume_confidence": {"eta_max": -1.0}}[k])
                 ops.append({"op": "class_check", "kind": k, "cfg": cfg})
-        return {"harness": "history", "worlds": worlds, "programs": progs, "bad": bad, "ops": ops, "machines": nm}
+        sc = {"harness": "history", "worlds": worlds, "programs": progs, "bad": bad, "ops": ops, "machines": nm}
+        return self.add_refused_twin(sc, index)
+
+    @staticmethod
+    def add_refused_twin(sc, index):
+        """
+        One scenario in six (decided from a hash, no draw from rnd) also carries a program that a pristine process
+        refuses: program 0 with one parameter just outside its domain.  Checked / run on machines of its own after other
+        step classes were checked, it must still be refused: a verdict is a result too.
+        """
+        h = hashlib.sha256(f"refused-twin:{index}".encode()).digest()
+        if h[0] % 6 != 0:
+            return sc
+        twin = copy.deepcopy(sc["programs"][0])
+        mc = twin["program"][0][1]
+        tweak = h[1] % 4
+        if tweak == 0:
+            mc.update({"matching_cost_method": "census", "window_size": (7, 9, 11)[h[2] % 3]})
+        elif tweak == 1:
+            mc.update({"matching_cost_method": ("sad", "ssd", "zncc")[h[2] % 3], "window_size": (2, 4)[h[3] % 2]})
+        elif tweak == 2:
+            mc["subpix"] = (3, 5)[h[2] % 2]
+        else:
+            fs = [st for st in twin["program"] if st[1].get("filter_method") in ("median", "median_for_intervals")]
+            if fs:
+                fs[0][1]["filter_size"] = (2, 4)[h[2] % 2]
+            else:
+                mc.update({"matching_cost_method": "census", "window_size": 7})
+        sc["programs"].append(twin)
+        pi, nm = len(sc["programs"]) - 1, sc["machines"]
+        ops = sc["ops"]
+        other = {"census": "sad"}.get(mc.get("matching_cost_method"), "census")
+        tail = [{"op": "class_check", "kind": "matching_cost", "cfg": {"matching_cost_method": other}},
+                {"op": "check" if h[4] % 2 else "run", "m": nm, "p": pi},
+                {"op": "run", "m": nm + 1, "p": pi}]
+        at = len(ops) - (h[5] % (len(ops) + 1))
+        sc["ops"] = ops[:at] + tail[:1] + ops[at:] + tail[1:]
+        sc["machines"] = nm + 2
+        return sc
 
     # -----------------------------------------------------------------------------------------------------------
     def execute(self, sc):
@@ -410,6 +448,9 @@ class C18:
                     if ref["ok"] and not st["used"]:
                         viol.append({"class": "C18.check_depends_on_history", "sig": runner.exc_sig(out), "op": oi})
                 else:
+                    if ref.get("stage") == "check" and not st["used"]:
+                        viol.append({"class": "C18.check_succeeds_only_with_history", "sig": {}, "op": oi,
+                                     "names": [n for n, _ in p["program"]]})
                     st["pipelines"].add(pi)
                 st["used"] = True
                 continue
